@@ -37,6 +37,9 @@ struct MCell {
     insts: Vec<MInst>,
     assigns: Vec<(String, TC)>,
     cuts: Vec<TC>,
+    /// outline and metal count of the abstract view when the cell has both views and they differ
+    /// (the two views are independent values: an abstract may be the bounding box of a stepped layout)
+    abs_own: Option<(Vec<i64>, Vec<i64>, usize)>,
 }
 #[derive(Clone, Debug, PartialEq, Eq, Hash)]
 struct MLib {
@@ -81,7 +84,22 @@ fn gen_lib(src: &mut Src) -> MLib {
             insts,
             assigns: (0..na).map(|_| (src.pick(&["a", "VDD", "net[3]", ""]).to_string(), gen_tc(src))).collect(),
             cuts: (0..ncut).map(|_| gen_tc(src)).collect(),
+            abs_own: None,
         });
+        let c = cells.last_mut().unwrap();
+        if c.has_layout && c.has_abs && src.prob(1, 3) {
+            c.abs_own = Some(match src.below(3) {
+                0 => (vec![c.ox[0]], vec![c.oy[0]], c.metals),
+                1 => (c.ox.clone(), c.oy.clone(), c.metals + 1),
+                _ => {
+                    let (x, y) = gen_outline(src);
+                    (x, y, src.usize_in(0, 5))
+                }
+            });
+            if c.abs_own == Some((c.ox.clone(), c.oy.clone(), c.metals)) {
+                c.abs_own = None;
+            }
+        }
     }
     let mut listing: Vec<usize> = (0..nc).collect();
     src.shuffle(&mut listing);
@@ -113,7 +131,10 @@ fn build(m: &MLib) -> tet::library::Library {
         }
         if c.has_abs {
             let abs_name = if c.metals % 3 == 2 { format!("{}_abs", c.name) } else { c.name.clone() };
-            cell.abs = Some(tet::abs::Abstract::new(abs_name, c.metals, outline));
+            cell.abs = Some(match &c.abs_own {
+                None => tet::abs::Abstract::new(abs_name, c.metals, outline),
+                Some((x, y, m)) => tet::abs::Abstract::new(abs_name, *m, Outline { x: x.iter().map(|v| tet::coords::PrimPitches::x(*v as isize)).collect(), y: y.iter().map(|v| tet::coords::PrimPitches::y(*v as isize)).collect() }),
+            });
         }
         ptrs.push(Ptr::new(cell));
     }
@@ -127,7 +148,7 @@ fn read_back(lib: &tet::library::Library) -> Result<Vec<MCell>, String> {
     let mut out = vec![];
     for cp in lib.cells.iter() {
         let c = cp.read().map_err(|_| "lock")?;
-        let mut mc = MCell { name: c.name.clone(), has_layout: c.layout.is_some(), has_abs: c.abs.is_some(), ox: vec![], oy: vec![], metals: 0, insts: vec![], assigns: vec![], cuts: vec![] };
+        let mut mc = MCell { name: c.name.clone(), has_layout: c.layout.is_some(), has_abs: c.abs.is_some(), ox: vec![], oy: vec![], metals: 0, insts: vec![], assigns: vec![], cuts: vec![], abs_own: None };
         let (outline, metals) = match (&c.layout, &c.abs) {
             (Some(l), _) => (l.outline.clone(), l.metals),
             (None, Some(a)) => (a.outline.clone(), a.metals),
@@ -139,7 +160,7 @@ fn read_back(lib: &tet::library::Library) -> Result<Vec<MCell>, String> {
         };
         if let (Some(l), Some(a)) = (&c.layout, &c.abs) {
             if l.outline != a.outline || l.metals != a.metals {
-                return Err(format!("cell {}: layout and abstract disagree on outline/metals", c.name));
+                mc.abs_own = Some((a.outline.x.iter().map(|p| p.num as i64).collect(), a.outline.y.iter().map(|p| p.num as i64).collect(), a.metals));
             }
         }
         mc.ox = outline.x.iter().map(|p| p.num as i64).collect();
@@ -368,6 +389,8 @@ fn run(run: &mut Run) {
     run.assume("abstract ports are not generated: their import is todo!() and they are not in the statement's field list");
     run.min_nontrivial = 200;
     run.explore("roundtrip", run.tier.pick(500_000, 5_000_000), 500, &roundtrip_case);
+    // the same, each case in a thread of its own (per-thread state of the code starts from scratch)
+    run.explore_fresh("roundtrip", run.tier.pick(3_000, 40_000), 500, &roundtrip_case);
     run.explore("negative", run.tier.pick(200_000, 2_000_000), 520, &negative_case);
 }
 fn case(sub: &str) -> Option<Box<CaseFn<'static>>> {
